@@ -5,6 +5,7 @@ package harness
 import (
 	"bytes"
 	"crypto/sha256"
+	"os"
 	"strings"
 
 	ethcrypto "github.com/ethereum/go-ethereum/crypto"
@@ -408,6 +409,16 @@ func (w *World) applyProposal(tx *ctypes.Trx, hash []byte) {
 	w.everProposals[hx(hash)] = true
 	w.newProposals = append(w.newProposals, pr)
 	w.Feat["ok_proposal"]++
+	for _, o := range pl.Options {
+		for _, d := range hostileDocs {
+			if d == string(o) && d != "{}" {
+				w.Feat["ok_proposal_with_hostile_option_document"]++
+				if os.Getenv("VERIF_DOC_STATS") != "" {
+					w.Feat["hostile_proposed:"+d]++
+				}
+			}
+		}
+	}
 }
 
 func (w *World) applyVoting(tx *ctypes.Trx) {
